@@ -20,6 +20,10 @@
 //             M report signal masks of the backend and main threads |
 //             sig:<SIG>:<raise|kill|fault|abort> | tsig:<t>:<SIG> (thread t raises, main parks) | texit:<t> |
 //             bsig:<SIG> (raised on the backend thread, from a sink) | ret | exit
+//             ksig:<SIG>:<any|m|t<k>|b|none>  process-directed kill(getpid(), SIG) with several threads; the handled signals
+//                 are first blocked in every thread but: none blocked (any: the kernel chooses) | the main thread (m) |
+//                 extra thread k (t<k>) | the backend thread, which a sink makes unblock it (b) | nobody (none: stays pending)
+//   threads:  n0 = a thread that never logs and never preallocates (alive, parked)
 //   wait=<0|1> (optional, default 1): BackendOptions::wait_for_queues_to_empty_before_exit
 //   timing a signal against the backend / against a stop() in another thread (GateSink, first sink of the logger):
 //             Gw  hold the backend inside the next write_log until a signal handler has been entered (+30 ms)
@@ -151,6 +155,9 @@ static std::atomic<int> gate_hold_write{0};   // 1: until a handler was entered,
 static std::atomic<int> gate_hold_flush{0};   // 1: hold the first flush_sink after a stop request until a handler was entered
 static std::atomic<int> gate_state{0};        // 0 free, 1 held in write_log, 2 held in flush_sink
 static std::atomic<int> gate_timeouts{0};
+static std::atomic<int> mask_cmd[MAXT];       // ksig: block the handled signals on thread t
+static std::atomic<int> mask_ack[MAXT];
+static std::atomic<int> backend_unblocked{0}; // ksig:…:b — the backend thread has unblocked the signal
 static int report_fd = -1;
 static quill::Logger* logger = nullptr;
 static std::string log_path;
@@ -186,7 +193,7 @@ static void log_one(int t)
 class RaiseSink : public quill::Sink
 {
 public:
-  explicit RaiseSink(int sig) : _sig(sig) {}
+  explicit RaiseSink(int sig, bool do_raise = true) : _sig(sig), _raise(do_raise) {}
   void write_log(quill::MacroMetadata const*, uint64_t, std::string_view, std::string_view, std::string const&,
                  std::string_view, quill::LogLevel, std::string_view, std::string_view,
                  std::vector<std::pair<std::string, std::string>> const*, std::string_view log_message,
@@ -198,12 +205,28 @@ public:
       sigemptyset(&s);
       sigaddset(&s, _sig);
       pthread_sigmask(SIG_UNBLOCK, &s, nullptr);
-      raise(_sig);
+      if (_raise) raise(_sig);
+      else backend_unblocked.store(1);
     }
   }
   void flush_sink() override {}
 private:
   int _sig;
+  bool _raise;
+};
+
+/** records on which thread the handler ran: the producer thread of the handler's notice (reported through the pipe) */
+class WhoSink : public quill::Sink
+{
+public:
+  void write_log(quill::MacroMetadata const*, uint64_t, std::string_view thread_id, std::string_view, std::string const&,
+                 std::string_view, quill::LogLevel, std::string_view, std::string_view,
+                 std::vector<std::pair<std::string, std::string>> const*, std::string_view log_message, std::string_view) override
+  {
+    if (log_message.rfind("Received signal:", 0) == 0)
+      report("WHO %.*s\n", static_cast<int>(thread_id.size()), thread_id.data());
+  }
+  void flush_sink() override {}
 };
 
 /** holds the backend thread at a chosen point (see Gw / Gs) so that a signal or a stop() provably happens while the
@@ -287,8 +310,27 @@ static void do_fault(int sig)
   else raise(sig);
 }
 
+static void block_handled()
+{
+  sigset_t st;
+  sigemptyset(&st);
+  for (int sgn : {SIGSEGV, SIGABRT, SIGFPE, SIGILL, SIGINT, SIGTERM}) sigaddset(&st, sgn);
+  pthread_sigmask(SIG_BLOCK, &st, nullptr);
+}
+
 static void thread_main(int t, ThreadSpec spec)
 {
+  report("TID %d %ld\n", t, static_cast<long>(syscall(SYS_gettid)));
+  if (spec.mode == 'n')
+  {
+    // never logs, never preallocates: no thread context, no queue
+    phase_done[t].store(1);
+    for (;;)
+    {
+      if (mask_cmd[t].load() && !mask_ack[t].load()) { block_handled(); mask_ack[t].store(1); }
+      std::this_thread::sleep_for(std::chrono::microseconds{200});
+    }
+  }
   quill::Frontend::preallocate();
   if (spec.mode == 'c')
   {
@@ -299,7 +341,11 @@ static void thread_main(int t, ThreadSpec spec)
       std::this_thread::sleep_for(std::chrono::microseconds{100});
     }
     quiet[t].store(1);
-    for (;;) pause();
+    for (;;)
+    {
+      if (mask_cmd[t].load() && !mask_ack[t].load()) { block_handled(); mask_ack[t].store(1); }
+      std::this_thread::sleep_for(std::chrono::microseconds{200});
+    }
   }
   for (int i = 0; i < spec.n; ++i) log_one(t);
   phase_done[t].store(1);
@@ -311,6 +357,7 @@ static void thread_main(int t, ThreadSpec spec)
     if (g > 0) { raise(g); report("CONT %d\n", 1000 + t); go_sig[t].store(0); }
     else if (g == -2) { quill::Backend::stop(); report("TSTOPPED %d\n", t); go_sig[t].store(0); }
     else if (g < 0) { std::exit(0); }
+    if (mask_cmd[t].load() && !mask_ack[t].load()) { block_handled(); mask_ack[t].store(1); }
     int a = arm_sig[t].load();
     if (a > 0)
     {
@@ -371,10 +418,16 @@ static int run(Case const& c, std::string const& scratch, int fd)
   quill::detail::SignalHandlerContext::instance().should_reraise_signal.store(c.reraise);
 
   int bsig = 0;
-  bool gated = false;
+  bool gated = false, who = false, braise = true;
   for (auto const& op : c.script)
   {
     if (op.rfind("bsig:", 0) == 0) bsig = sig_num(op.substr(5));
+    if (op.rfind("ksig:", 0) == 0)
+    {
+      who = true;
+      auto parts = split(op, ':');
+      if (parts.size() > 2 && parts[2] == "b") { bsig = sig_num(parts[1]); braise = false; }
+    }
     if (op == "Gw" || op == "Gs") gated = true;
   }
 
@@ -386,7 +439,8 @@ static int run(Case const& c, std::string const& scratch, int fd)
     std::vector<std::shared_ptr<quill::Sink>> sinks;
     if (gated) sinks.push_back(quill::Frontend::create_or_get_sink<GateSink>("gate_sink"));
     sinks.push_back(quill::Frontend::create_or_get_sink<quill::FileSink>(log_path, cfg));
-    if (bsig) sinks.push_back(quill::Frontend::create_or_get_sink<RaiseSink>("raise_sink", bsig));
+    if (bsig) sinks.push_back(quill::Frontend::create_or_get_sink<RaiseSink>("raise_sink", bsig, braise));
+    if (who) sinks.push_back(quill::Frontend::create_or_get_sink<WhoSink>("who_sink"));
     logger = quill::Frontend::create_or_get_logger(
       "root", std::move(sinks), quill::PatternFormatterOptions{"%(message)"},
       c.tsc ? quill::ClockSourceType::Tsc : quill::ClockSourceType::System);
@@ -431,6 +485,7 @@ static int run(Case const& c, std::string const& scratch, int fd)
   };
   auto graceful = [](int sg) { return sg == SIGINT || sg == SIGTERM; };
 
+  report("TID 0 %ld\n", static_cast<long>(syscall(SYS_gettid)));
   int k = 0;
   for (auto const& op : c.script)
   {
@@ -516,6 +571,45 @@ static int run(Case const& c, std::string const& scratch, int fd)
       else if (how == "kill") { kill(getpid(), sg); std::this_thread::sleep_for(std::chrono::milliseconds{20}); }
       else do_fault(sg);
       report("CONT %d\n", k);   // the handler returned and the program goes on
+    }
+    else if (op.rfind("ksig:", 0) == 0)
+    {
+      auto parts = split(op, ':');
+      int sg = sig_num(parts[1]);
+      std::string spec = parts.size() > 2 ? parts[2] : "any";
+      if (graceful(sg)) quiesce_threads();
+      wait_threads();
+      if (spec == "b")
+      {
+        LOG_ERROR(logger, "TRIGGER");
+        auto t0 = Clock::now();
+        while (!backend_unblocked.load())
+        {
+          if (Clock::now() - t0 > std::chrono::seconds{5}) { report("SYNCFAIL %d\n", k); break; }
+          std::this_thread::sleep_for(std::chrono::microseconds{100});
+        }
+      }
+      int keep = (spec.size() > 1 && spec[0] == 't') ? atoi(spec.c_str() + 1) : -1;   // the only thread left unblocked
+      if (spec != "any")
+      {
+        for (size_t i = 0; i < c.threads.size(); ++i)
+        {
+          if (static_cast<int>(i) + 1 == keep || c.threads[i].mode == 'f') continue;
+          mask_cmd[i + 1].store(1);
+          auto t0 = Clock::now();
+          while (!mask_ack[i + 1].load())
+          {
+            if (Clock::now() - t0 > std::chrono::seconds{5}) { report("SYNCFAIL %d\n", k); break; }
+            std::this_thread::sleep_for(std::chrono::microseconds{100});
+          }
+        }
+        if (spec != "m") block_handled();
+      }
+      snap(k);
+      kill(getpid(), sg);
+      // delivered to this thread: the handler has run before kill() returns; to another one: give it time to end the process
+      std::this_thread::sleep_for(std::chrono::milliseconds{spec == "none" ? 200 : 3000});
+      report("CONT %d\n", k);
     }
     else if (op.rfind("tsig:", 0) == 0)
     {
@@ -698,6 +792,8 @@ int main(int argc, char** argv)
     std::string stopscans = "-", q, mask;
     bool stops_ok = true, saw_end = false, sync_ok = true;
     int cont = 0;
+    std::map<long, int> tid_of;   // kernel thread id -> thread index
+    long who_tid = -1;
     for (auto const& ln : split(r.pipe_text, '\n'))
     {
       std::istringstream is(ln);
@@ -727,6 +823,8 @@ int main(int argc, char** argv)
       else if (w == "M") { std::string v; is >> v; mask += (mask.empty() ? "" : ";") + v; }
       else if (w == "CONT") ++cont;
       else if (w == "SYNCFAIL") sync_ok = false;
+      else if (w == "TID") { long tid = 0; is >> tid; tid_of[tid] = k; }
+      else if (w == "WHO") { who_tid = k; }
       else if (w == "END") saw_end = true;
     }
     // the file, read from outside
@@ -786,7 +884,8 @@ int main(int argc, char** argv)
     // what ended the script
     std::string term = c.script.back();
     int sig_thread = -1, sg = 0;
-    bool is_sig = false, raise_on_backend = false, is_dsig = false;
+    bool is_sig = false, raise_on_backend = false, is_dsig = false, is_ksig = false, ksig_none = false, receiver_never_logged = false;
+    int who = -1;
     int d_thread = 0, d_sig_t = 0, d_sig_m = 0;
     for (auto const& op : c.script)
     {
@@ -799,6 +898,29 @@ int main(int argc, char** argv)
       if (parts[0] == "sig") { is_sig = true; sig_thread = 0; sg = sig_num(parts[1]); }
       else if (parts[0] == "tsig" || parts[0] == "tsigx") { is_sig = true; sig_thread = atoi(parts[1].c_str()); sg = sig_num(parts[2]); }
       else if (parts[0] == "bsig") { is_sig = true; raise_on_backend = true; sg = sig_num(parts[1]); }
+      else if (parts[0] == "ksig")
+      {
+        // process-directed: the receiving thread is the producer of the notice (WhoSink); without a notice it is the
+        // thread the masks leave (t<k>, m), the main thread when the kernel chooses (Linux tries it first), the backend (b)
+        std::string spec = parts.size() > 2 ? parts[2] : "any";
+        sg = sig_num(parts[1]);
+        is_ksig = true;
+        if (spec == "none") { ksig_none = true; continue; }
+        is_sig = true;
+        if (spec == "b") { raise_on_backend = true; continue; }
+        sig_thread = (spec.size() > 1 && spec[0] == 't') ? atoi(spec.c_str() + 1) : 0;
+        if (who_tid >= 0 && tid_of.count(who_tid)) who = tid_of[who_tid];
+        if (who >= 0 && spec != "any" && who != sig_thread)
+          oracle.push_back("handler-ran-on-a-thread-that-blocks-the-signal thread=" + std::to_string(who) + " expected=" + std::to_string(sig_thread));
+        if (who >= 0) sig_thread = who;
+        // the property speaks about a thread that has logged before: the main thread (it owns the logger and has
+        // preallocated) and f/a/c threads with at least one statement; an `n` thread is outside the premise
+        if (sig_thread > 0)
+        {
+          ThreadSpec const& ts = c.threads[static_cast<size_t>(sig_thread) - 1];
+          if (ts.mode == 'n' || ts.n == 0) receiver_never_logged = true;
+        }
+      }
     }
     // premise of the signal half of the property: the backend of the current cycle was started with the handler and is
     // running, the thread is a frontend thread with the logger, re-raise on, first signal of the process
@@ -811,7 +933,7 @@ int main(int argc, char** argv)
       else if (op == "I") handler_installed = true;
       else if (op == "X") { backend_up = false; handler_cycle = false; }
       else if (op.rfind("sig:", 0) == 0 || op.rfind("tsig:", 0) == 0 || op.rfind("bsig:", 0) == 0 || op.rfind("dsig:", 0) == 0 ||
-               op.rfind("tsigx:", 0) == 0) { ++nsigops; break; }
+               op.rfind("tsigx:", 0) == 0 || op.rfind("ksig:", 0) == 0) { ++nsigops; break; }
     }
     if (is_dsig)
     {
@@ -827,7 +949,7 @@ int main(int argc, char** argv)
     bool armed_sig = false;
     for (auto const& op : c.script) if (op.rfind("tsigx:", 0) == 0) armed_sig = true;
     bool premise = is_sig && !raise_on_backend && handler_cycle && backend_up && c.logger && c.reraise && nsigops == 1 &&
-      (c.script.back().find("sig:") != std::string::npos || armed_sig) && sync_ok;
+      (c.script.back().find("sig:") != std::string::npos || armed_sig) && sync_ok && !receiver_never_logged;
     std::string after_last = "-";
     if (r.status == "hang") oracle.push_back("process-did-not-end (killed after the limit of " + std::to_string(static_cast<int>(c.limit)) + " s)");
     if (premise)
@@ -851,7 +973,7 @@ int main(int argc, char** argv)
                                   " last-statement-line=" + std::to_string(last_line[st]) + " signum=" + std::to_string(nsig));
       }
     }
-    else if (is_sig && handler_installed && c.reraise && !raise_on_backend && !(handler_cycle && backend_up && !c.logger))
+    else if (is_sig && handler_installed && c.reraise && !raise_on_backend && !receiver_never_logged && !(handler_cycle && backend_up && !c.logger))
     {
       // a handled signal outside a handler cycle (backend stopped / never started / started without the handler):
       // the process must still end by the signal, or successfully for SIGINT/SIGTERM
@@ -891,10 +1013,11 @@ int main(int argc, char** argv)
         prev = op;
       }
     }
-    printf("%s => status=%s snap=%s found=%s order=%s notices=%d/%d nsig=%s after_last=%s stopscans=%s q=%s mask=%s cont=%d sync=%s\n",
+    printf("%s => status=%s snap=%s found=%s order=%s notices=%d/%d nsig=%s after_last=%s stopscans=%s q=%s mask=%s cont=%d sync=%s who=%s\n",
            c.line.c_str(), r.status.c_str(), join(last_snap).c_str(), join(found).c_str(), order_ok ? "ok" : "bad", n_info, n_crit,
            nsig ? sig_name(nsig).c_str() : "-", after_last.c_str(), stopscans.c_str(), q.empty() ? "-" : q.c_str(),
-           mask.empty() ? "-" : mask.c_str(), cont, sync_ok ? "ok" : "fail");
+           mask.empty() ? "-" : mask.c_str(), cont, sync_ok ? "ok" : "fail",
+           !is_ksig ? "-" : ksig_none ? "none" : raise_on_backend ? "b" : who >= 0 ? std::to_string(who).c_str() : "?");
     for (auto const& o : oracle)
     {
       printf("ORACLE case=%s %s\n", c.id.c_str(), o.c_str());
